@@ -334,7 +334,7 @@ class C08(TreeSpec):
                     ops.append({"op": "read", "strat": under, "prop": r.randrange(len(self.DYN_PROPS)) if r.random() < 0.5 else 0})
         fired["dynamic_attach_plan"] = 1
         cfg = {"integer": r.random() < 0.5, "capital": 1e6, "profile": "dynamic"}
-        return {"driver": "dyn", "cfg": cfg, "feed": fspec, "ops": ops, "fired": fired}
+        return {"driver": "dyn", "cfg": cfg, "feed": fspec, "ops": ops, "fired": fired, "start_row": r.randint(1, 3)}
 
     def run_dyn(self, bt, plan):
         import numpy as np
@@ -367,11 +367,17 @@ class C08(TreeSpec):
                 if k == "tick":
                     if ti + 1 >= len(dates):
                         continue
-                    if ti >= 1:
-                        prefix.append((ti + 1, {m.full_name: m.data.to_numpy(dtype=float, na_value=float("nan"))[: ti + 1].tobytes() for m in root.members}))
+                    # rows dated before the date the clock is about to move to (also before the very first update: a tree may be
+                    # started on any date of its data, and what lies before that date is not its to write)
+                    first = ti == 0
+                    step = plan.get("start_row", 1) if first else 1
+                    if ti + step >= len(dates):
+                        continue
+                    prefix.append((ti + step, {m.full_name: m.data.to_numpy(dtype=float, na_value=float("nan"))[: ti + step].tobytes() for m in root.members}))
+                    ti += step - 1
                     ti += 1
                     root.update(dates[ti])
-                    if ti == 1:
+                    if first:
                         root.adjust(plan["cfg"]["capital"])
                         root.update(dates[ti])
                 elif ti == 0:
@@ -1159,6 +1165,13 @@ class C11(Spec):
 
             else:
                 comm = base
+        if k % 2:
+            # every other backtest of the family sees another price scenario on the same calendar and tickers (one template run
+            # over several scenarios): whatever one of them computes must not reach the others
+            import numpy as _np
+
+            fac = _np.array([[1.0 + 0.04 * _np.sin(0.7 * k + 0.9 * i * (j + 1)) for j in range(data.shape[1])] for i in range(data.shape[0])])
+            data = data * fac
         return bt.Backtest(template, data, name="b%d" % k, initial_capital=cfg["capital"] * (1 + k), commissions=comm, integer_positions=cfg["integer"] if k % 2 == 0 else not cfg["integer"], progress_bar=False, additional_data=add or None)
 
     def _has_random(self, plan):
@@ -1167,10 +1180,11 @@ class C11(Spec):
                 return True
         return False
 
-    def digests_alone(self, bt, plan):
-        """each of the K backtests run alone from a fresh template"""
-        out = []
-        for k in range(plan["K"]):
+    def digests_alone(self, bt, plan, reverse=False):
+        """each of the K backtests run alone from a fresh template (the fresh-interpreter child runs them in the opposite order:
+        anything that survives from one backtest to the next inside a process then shows as a difference between the two)"""
+        out = {}
+        for k in (reversed(range(plan["K"])) if reverse else range(plan["K"])):
             sim, data, add = self._ctx(bt, plan)
             template = drive_engine.trees.build(bt, plan["tree"], algos_for=sim.algos_for)
             b = self._mk(bt, plan, sim, template, data, add, k)
@@ -1180,8 +1194,8 @@ class C11(Spec):
                 err = None
             except Exception as e:  # noqa
                 err = type(e).__name__ + ":" + str(e)[:60]
-            out.append((history_digest(b.strategy) if getattr(b.strategy, "data", None) is not None else None, err, len(sim.spy_log)))
-        return out
+            out[k] = (history_digest(b.strategy) if getattr(b.strategy, "data", None) is not None else None, err, len(sim.spy_log))
+        return [out[k] for k in range(plan["K"])]
 
     def run(self, bt, plan):
         import random as _r
